@@ -229,6 +229,11 @@ def _url_files(n1, n2, b1, b2, tname):
                   "subroutine run(self)", "class(*) :: self", "end subroutine run", "end module mod_a"],
         "b.f90": ["module mod_b", "contains", _choice.apply(lambda n: f"subroutine {n}()", n2), "end subroutine",
                   "subroutine helper()", "end subroutine helper", "end module mod_b"],
+        # separate module procedures implemented in a submodule in both statement forms, named like ordinary procedures elsewhere
+        "c.f90": ["module mod_c", "interface", "module subroutine solve()", "end subroutine solve", "module subroutine init()", "end subroutine init",
+                  "end interface", "end module mod_c",
+                  "submodule (mod_c) mod_c_impl", "contains", "module procedure solve", "end procedure solve",
+                  "module subroutine init()", "end subroutine init", "end submodule mod_c_impl"],
     }
 
 
@@ -238,7 +243,7 @@ def _all_entities(p):
     def walk(e):
         out.append(e)
         for l in ("modules", "submodules", "programs", "subroutines", "functions", "types", "interfaces", "absinterfaces", "variables",
-                  "boundprocs", "args", "routines"):
+                  "boundprocs", "args", "routines", "modprocedures", "modsubroutines", "modfunctions"):
             v = getattr(e, l, None)
             if l == "routines":
                 try:
